@@ -46,6 +46,10 @@ CHECKS = {
          "Exploration: five fault kinds are planted at ~60 syntactic positions each and at random leaves of thousands of generated programs; whenever the instrumented helper was invoked the render must fail with an error that Is the original and with empty output, and - both directions - the render fails exactly when the reference interpreter says a fault is evaluated outside the tolerated positions.",
          "Reference interpreter decides reachability (short-circuit, untaken branches, uncalled functions) and the tolerated positions.",
          "DESIGN.md §4 C05"),
+ "C12": ("exhaustive signature x call-shape enumeration with reflect.MakeFunc recording helpers + rapid random pairs; reference binder written from the statement, differential on received values / invocation count / evaluation order",
+         "Exploration: every parameter-slot type x argument kind, an arity matrix over 0-3 fixed parameters x 12 tails x 12 result shapes, the full product of 684 signatures with every call of <=2 (thorough <=3) arguments of 18 kinds, with and without a block; the recorded invocation (values received, HasBlock/Block, evaluate-once left-to-right order) must equal what a reference binder derives from the statement, errors must name the call and leave the function uninvoked.",
+         "Calls that omit non-auto trailing parameters or have too few arguments are counted as unspecified, not asserted.",
+         "DESIGN.md §4 C12"),
 }
 
 NOT_BUILT = "check not built yet in this session (see DESIGN.md §4 for its plan); will be claimed once its check is committed"
